@@ -30,6 +30,8 @@ func c20Options(opts []c20model.Opt) []Option {
 			real = append(real, WithEndpoint(o.S))
 		case "endpointURL":
 			real = append(real, WithEndpointURL(o.S))
+		case "insecure":
+			real = append(real, WithInsecure())
 		case "headers":
 			real = append(real, WithHeaders(o.H))
 		case "compression":
